@@ -87,10 +87,13 @@ def run(tier: str) -> Run:
         r2.check(eq_term(conserved, Ei - Ef), name, loc(fi),
                  {'value_at_arrival_time': T.show(conserved), 'expected': 'incident_energy - final_energy'}, key=name)
         # R3 guard
+        # accepted: NaN where dt <= 0, or the value only where dt > 0 (the two differ for a NaN
+        # dt alone, where the value arm is NaN as well)
         want_cond = T.fn_cmp('<=', dt, Rat.const(0))
-        cond_ok = eq_term(cond, want_cond)
+        cond_ok = (eq_term(cond, want_cond) and nan_first) or (eq_term(cond, T.fn_cmp('>', dt, Rat.const(0))) and not nan_first)
+        nan_arm_ok = eq_term(a if nan_first else b, nan)
         pole_ok = (value * dt**2).den is T.ONE_P
-        r3.check(cond_ok and nan_first and pole_ok, name, loc(fi),
+        r3.check(cond_ok and nan_arm_ok and pole_ok, name, loc(fi),
                  {'condition': T.show(cond), 'expected_condition': T.show(want_cond),
                   'nan_is_selected_where_condition_holds': nan_first,
                   'only_divisor_is_dt_squared': pole_ok}, key=name)
